@@ -37,7 +37,7 @@ func init() {
 			{Name: "l3-daemon-cancel", Fn: scnC13L3, Weight: 1},
 		},
 		Rule: "cancellation injected into each blocking state of each worker (ingester waiting for a writer; blocked reading an idle pipe; after the last writer closed the pipe (whatever the ingester does at the end of the stream); audit ingester handing a record downstream " +
-			"with a stopped consumer and buffer capacities {1,2,8,64,10000}, buffer empty or full, cancelled at once or after 2-40 simulated seconds of back-pressure; sshd pipeline handing a login to an unready correlator; audit processor idle / with lines queued / mid-push / during a maintenance flush / with a producer outside the cancelled group that keeps its queue topped up), " +
+			"with a stopped consumer and buffer capacities {1,2,8,64,10000}, buffer empty or full, cancelled at once or after 2-40 simulated seconds of back-pressure; sshd pipeline handing a login to an unready correlator; audit processor idle / with lines queued / mid-push / during a maintenance flush / with a producer outside the cancelled group that keeps its queue topped up / with 18-47 failures queued behind an incomplete group; ended by a cancel call or by the context's own deadline), " +
 			"either in the constructively established state or at a tape-chosen scheduler step; plus the assembled daemon cancelled at a taped step under traffic; then a fair schedule with the clock advancing at quiescence: the worker must return within 1 simulated second and 20000 steps " +
 			"and stay silent for 10 further simulated seconds while input remains available; non-trivial = the intended blocking state was reached (probe) before cancel; distinct = distinct (state, capacity, fill, cancel step, schedule hash)",
 		Quick: 6400, Thorough: 200000,
@@ -371,6 +371,15 @@ func scnC13Read(rc *RunCtx) {
 	t := rc.Spec
 	ctx, cancel := context.WithCancel(context.Background())
 	rc.Cleanup(cancel)
+	// the context may end by a deadline instead of a cancel call (a parent with a time-out)
+	byDeadline := t.Choose(5, "ctx.ends.by.deadline") == 4
+	const deadlineAfter = 8 * time.Second
+	if byDeadline {
+		var cancel2 context.CancelFunc
+		ctx, cancel2 = context.WithTimeout(ctx, deadlineAfter)
+		rc.Cleanup(cancel2)
+		rc.Sim.Count("c13.ctx_ends_by_deadline")
+	}
 	rec := &Recorder{Sim: rc.Sim}
 	audits := make(chan string, 256)
 	logins := make(chan common.RemoteUserLogin)
@@ -392,10 +401,24 @@ func scnC13Read(rc *RunCtx) {
 		audits <- l + "\n"
 	}
 	pipelinePolicy(rc)
-	mode := t.Choose(5, "state")
+	mode := t.Choose(6, "state")
 	step := -1
 	stopFeed := &doneFlag{}
 	rc.Cleanup(func() { stopFeed.set(nil) })
+	if mode == 5 {
+		// a burst of failures waiting to be reported: LOGIN records with unparsable PIDs queued in
+		// sequence order behind a group that is not complete yet; they are all released at once
+		// (by the flush on the way out, or by the time-out)
+		inc := k.Exec("610", pid+300, 1000, []string{"ls", "-la"}, true, true, false)
+		for _, l := range inc.Lines[:2] {
+			audits <- l + "\n"
+		}
+		for i, n := 0, 18+t.Choose(30, "nfailures"); i < n; i++ {
+			bad := k.Login(fmt.Sprint(700+i), 1, 1001)
+			audits <- strings.Replace(bad.Lines[0], "pid=1 ", "pid=zzz ", 1) + "\n"
+		}
+		rc.Sim.Count("c13.failure_burst_behind_incomplete_group")
+	}
 	if mode == 3 {
 		// a record group of the bound session that lacks its terminating record: only the
 		// periodic maintenance (2 s time-out, 500 ms tick) releases it
@@ -419,6 +442,11 @@ func scnC13Read(rc *RunCtx) {
 			}
 		}
 		rc.Sim.Count("cancel_during_maintenance_tick")
+	case 5: // everything consumed; cancelled inside the time-out or after the burst has been released
+		runToStepOrState(rc, func() bool { return res.v || (len(audits) == 0 && loginSent.v) }, -1, 1500)
+		if t.Choose(2, "burst.after.timeout") == 1 {
+			quietFor(rc, 3*time.Second)
+		}
 	case 0: // idle: everything consumed
 		runToStepOrState(rc, func() bool { return len(audits) == 0 && loginSent.v }, -1, 3000)
 		quietFor(rc, time.Duration(t.Choose(3, "idle.s"))*time.Second)
@@ -445,12 +473,21 @@ func scnC13Read(rc *RunCtx) {
 	if qAtCancel > 0 {
 		rc.Sim.Count("cancel_with_lines_queued")
 	}
-	cancel()
-	rc.Sim.Count("ctx.cancel")
+	if byDeadline && !res.v && mode != 4 {
+		// let the deadline pass instead of cancelling
+		for rc.SimNow() < deadlineAfter && !res.v {
+			rc.Sim.RunUntil(func() bool { return res.v }, 50000)
+			time.Sleep(500 * time.Millisecond)
+		}
+		rc.Sim.Count("ctx.deadline")
+	} else {
+		cancel()
+		rc.Sim.Count("ctx.cancel")
+	}
 	ok, why := settleAfterCancel(rc, func() bool { return res.v }, time.Second)
-	rc.CaseKey(mode, queued, step)
+	rc.CaseKey(mode, queued, step, byDeadline)
 	rc.R.NonTrivial = true
-	rc.R.Sample = map[string]any{"worker": "auditd.Read", "state": []string{"idle", "lines-queued", "mid-push", "maintenance-flush", "live-producer"}[mode], "lines": len(lines), "queued_at_cancel": qAtCancel, "cancel_at_step": step, "returned": res.v, "err": fmt.Sprint(res.err)}
+	rc.R.Sample = map[string]any{"worker": "auditd.Read", "state": []string{"idle", "lines-queued", "mid-push", "maintenance-flush", "live-producer", "failure-burst"}[mode], "lines": len(lines), "queued_at_cancel": qAtCancel, "cancel_at_step": step, "returned": res.v, "err": fmt.Sprint(res.err)}
 	if !ok {
 		rc.Fail("C13", "no-return-read", "auditd.Read did not return after cancellation (%s): %v", why, rc.Sim.Live())
 		return
